@@ -61,7 +61,7 @@ def generate(seed, tier):
             "cid_as_path": swarm.choice([None, None, None, "plain", "rewritten"]),
             # another data set is validated with the same Cid object between construction and use of the reader
             "other_data_between": tabular.draw_table(rng, spec, 4, bad_rate=0.0, ragged_rate=0.0) if swarm.random() < 0.2 else None,
-            "ods_features": sorted(swarm.sample(["colruns", "colstyle", "stored", "utf16"], swarm.randint(0, 2)))}
+            "ods_features": sorted(swarm.sample(["colruns", "colstyle", "stored", "utf16", "rowruns", "spans", "links"], swarm.randint(0, 3)))}
 
 
 def execute(scenario):
